@@ -1,6 +1,6 @@
 (* Proofs for C13 about Model/Keywords.v. *)
 From Coq Require Import List Ascii String ZArith QArith Bool Arith Lia.
-From YP Require Import Outcome PyStr PyVal Doc PathParser Searches Keywords SpecC13.
+From YP Require Import Outcome PyStr PyVal Doc PathParser Searches Keywords SpecC13 PyValOrder.
 Import ListNotations.
 Open Scope string_scope.
 Open Scope list_scope.
@@ -17,34 +17,6 @@ Lemma Qlt_bool_false : forall a b, Qlt_bool a b = false <-> (b <= a)%Q.
 Proof.
   intros a b. unfold Qlt_bool. rewrite negb_false_iff. apply Qle_bool_iff.
 Qed.
-
-(* "the new value b beats the running value a" *)
-Definition beats (cmp : smethod) (a b : Q) : bool :=
-  match cmp with MLt => Qlt_bool b a | _ => Qlt_bool a b end.
-(* a is at least as good as b *)
-Definition good (cmp : smethod) (a b : Q) : Prop :=
-  match cmp with MLt => (a <= b)%Q | _ => (b <= a)%Q end.
-
-Lemma beats_false_good : forall cmp a b, beats cmp a b = false <-> good cmp a b.
-Proof. intros [] a b; simpl; apply Qlt_bool_false. Qed.
-Lemma beats_true_not_good : forall cmp a b, beats cmp a b = true -> ~ good cmp a b.
-Proof.
-  intros cmp a b H G. apply beats_false_good in G. congruence.
-Qed.
-Lemma good_trans : forall cmp a b c, good cmp a b -> good cmp b c -> good cmp a c.
-Proof. intros [] a b c; simpl; intros; eapply Qle_trans; eauto. Qed.
-Lemma good_refl : forall cmp a, good cmp a a.
-Proof. intros [] a; simpl; apply Qle_refl. Qed.
-Lemma good_total : forall cmp a b, good cmp a b \/ good cmp b a.
-Proof.
-  intros cmp a b. destruct (Qlt_le_dec a b) as [H|H].
-  - apply Qlt_le_weak in H. destruct cmp; simpl; auto.
-  - destruct cmp; simpl; auto.
-Qed.
-Lemma good_eq : forall cmp a b, good cmp a b -> good cmp b a -> (a == b)%Q.
-Proof. intros [] a b; simpl; intros; apply Qle_antisym; assumption. Qed.
-Lemma Qeq_good : forall cmp a b, (a == b)%Q -> good cmp a b.
-Proof. intros [] a b H; simpl; rewrite H; apply Qle_refl. Qed.
 
 Section WithOracles.
 Variable lit : string -> outcome litres.
@@ -151,11 +123,55 @@ Qed.
 (* ---------- max / min: the scan ---------- *)
 Section Scan.
 Variable cmp : smethod.
-Variable key : pyval -> Q.
+(* the order of the spec ("a is at most b") and its boolean form *)
+Variable le : pyval -> pyval -> Prop.
+Variable leb : pyval -> pyval -> bool.
+Hypothesis leb_le : forall a b, leb a b = true <-> le a b.
+Hypothesis le_refl : forall a, le a a.
+Hypothesis le_trans : forall a b c, le a b -> le b c -> le a c.
+Hypothesis le_total : forall a b, le a b \/ le b a.
+
+(* a is at least as good as b (for max: b <= a; for min: a <= b) *)
+Definition good (a b : pyval) : Prop := match cmp with MLt => le a b | _ => le b a end.
+Definition goodb (a b : pyval) : bool := match cmp with MLt => leb a b | _ => leb b a end.
+Definition eqv (a b : pyval) : Prop := le a b /\ le b a.
+Definition eqvb (a b : pyval) : bool := leb a b && leb b a.
+
 Variable P : pyval -> Prop.            (* the comparable values of the collection *)
 Hypothesis HP_none : forall v, P v -> is_pnone v = false.
-Hypothesis HP_cmp : forall a b, P a -> P b -> sm cmp a b = Ok (beats cmp (key a) (key b)).
-Hypothesis HP_eq : forall a b, P a -> P b -> sm MEquals a b = Ok (Qeq_bool (key b) (key a)).
+(* the running value a is beaten by the new value b *)
+Hypothesis HP_cmp : forall a b, P a -> P b -> sm cmp a b = Ok (negb (goodb a b)).
+Hypothesis HP_eq : forall a b, P a -> P b -> sm MEquals a b = Ok (eqvb a b).
+
+Lemma goodb_good : forall a b, goodb a b = true <-> good a b.
+Proof. intros a b. unfold goodb, good. destruct cmp; apply leb_le. Qed.
+Lemma beats_false_good : forall a b, negb (goodb a b) = false <-> good a b.
+Proof. intros a b. rewrite negb_false_iff. apply goodb_good. Qed.
+Lemma beats_true_not_good : forall a b, negb (goodb a b) = true -> ~ good a b.
+Proof. intros a b H G. apply goodb_good in G. rewrite G in H. discriminate. Qed.
+Lemma good_trans : forall a b c, good a b -> good b c -> good a c.
+Proof. unfold good. intros a b c; destruct cmp; intros; eapply le_trans; eauto. Qed.
+Lemma good_refl : forall a, good a a.
+Proof. unfold good. intros a; destruct cmp; apply le_refl. Qed.
+Lemma good_total : forall a b, good a b \/ good b a.
+Proof. unfold good. intros a b. destruct cmp; try apply le_total; destruct (le_total a b); auto. Qed.
+Lemma good_eq : forall a b, good a b -> good b a -> eqv a b.
+Proof. unfold good, eqv. intros a b; destruct cmp; intros; split; assumption. Qed.
+Lemma eqv_good : forall a b, eqv a b -> good a b.
+Proof. unfold good, eqv. intros a b [H1 H2]; destruct cmp; assumption. Qed.
+Lemma eqv_sym : forall a b, eqv a b -> eqv b a.
+Proof. intros a b [H1 H2]; split; assumption. Qed.
+Lemma eqv_refl : forall a, eqv a a.
+Proof. intros a; split; apply le_refl. Qed.
+Lemma eqvb_iff : forall a b, eqvb a b = true <-> eqv a b.
+Proof.
+  intros a b. unfold eqvb, eqv. rewrite andb_true_iff, !leb_le. reflexivity.
+Qed.
+Lemma eqv_dec : forall a b, eqv a b \/ ~ eqv a b.
+Proof.
+  intros a b. destruct (eqvb a b) eqn:E; [left; apply eqvb_iff; assumption|].
+  right. intros H. apply eqvb_iff in H. congruence.
+Qed.
 
 Definition mem := (option pyval * coords)%type.
 
@@ -174,10 +190,10 @@ Definition Inv (ms : list mem) (s : scan) : Prop :=
    (forall c, In c (s_discard s) <-> exists ov, In (ov, c) ms))
   \/
   (exists best, s_value s = best /\ P best /\ (exists c, In (Some best, c) ms) /\
-     (forall w c, In (Some w, c) ms -> good cmp (key best) (key w)) /\
-     (forall c, In c (s_match s) <-> exists w, In (Some w, c) ms /\ (key w == key best)%Q) /\
+     (forall w c, In (Some w, c) ms -> good best w) /\
+     (forall c, In c (s_match s) <-> exists w, In (Some w, c) ms /\ eqv w best) /\
      (forall c, In c (s_discard s) <->
-        exists ov, In (ov, c) ms /\ match ov with None => True | Some w => ~ good cmp (key w) (key best) end)).
+        exists ov, In (ov, c) ms /\ match ov with None => True | Some w => ~ good w best end)).
 
 Lemma in_snoc : forall A (l : list A) a x, In x (l ++ [a]) <-> In x l \/ x = a.
 Proof. intros. rewrite in_app_iff. simpl. intuition. Qed.
@@ -219,7 +235,7 @@ Proof.
     + exists c. apply in_snoc. right; reflexivity.
     + intros w c' Hi. apply in_snoc in Hi. destruct Hi as [Hi|Hi]; [exfalso; apply (Hno _ _ Hi)|].
       inversion Hi; subst. apply good_refl.
-    + intros [Hi|[]]. subst. exists v. split; [apply in_snoc; right; reflexivity|reflexivity].
+    + intros [Hi|[]]. subst. exists v. split; [apply in_snoc; right; reflexivity|apply eqv_refl].
     + intros [w [Hi He]]. apply in_snoc in Hi. destruct Hi as [Hi|Hi]; [exfalso; apply (Hno _ _ Hi)|].
       inversion Hi; subst. left; reflexivity.
     + rewrite Hm, app_nil_r. intros Hi. apply Hd in Hi. destruct Hi as [ov Hi]. exists ov.
@@ -229,41 +245,41 @@ Proof.
       * apply Hd. exists ov; assumption.
       * inversion Hi; subst. exfalso. apply Ho. apply good_refl.
   - subst best. rewrite (HP_none _ Pb). rewrite (HP_cmp _ _ Pb Pv). simpl.
-    destruct (beats cmp (key (s_value s)) (key v)) eqn:Eb.
+    destruct (negb (goodb (s_value s) v)) eqn:Eb.
     + (* a new extremum: the former ones are discarded *)
       eexists. split; [reflexivity|].
-      pose proof (beats_true_not_good _ _ _ Eb) as Hnb.
-      assert (Hvb : good cmp (key v) (key (s_value s))).
-      { destruct (good_total cmp (key v) (key (s_value s))); [assumption|contradiction]. }
+      pose proof (beats_true_not_good _ _ Eb) as Hnb.
+      assert (Hvb : good v (s_value s)).
+      { destruct (good_total v (s_value s)); [assumption|contradiction]. }
       right. exists v. simpl. repeat split; try assumption.
       * exists c. apply in_snoc. right; reflexivity.
       * intros w c' Hi. apply in_snoc in Hi. destruct Hi as [Hi|Hi].
         -- eapply good_trans; [exact Hvb|apply (Hg _ _ Hi)].
         -- inversion Hi; subst. apply good_refl.
-      * intros [Hi|[]]. subst. exists v. split; [apply in_snoc; right; reflexivity|reflexivity].
+      * intros [Hi|[]]. subst. exists v. split; [apply in_snoc; right; reflexivity|apply eqv_refl].
       * intros [w [Hi He]]. apply in_snoc in Hi. destruct Hi as [Hi|Hi].
-        -- exfalso. apply Hnb. eapply good_trans; [apply (Hg _ _ Hi)|]. apply Qeq_good. assumption.
+        -- exfalso. apply Hnb. eapply good_trans; [apply (Hg _ _ Hi)|]. apply eqv_good. assumption.
         -- inversion Hi; subst. left; reflexivity.
       * intros Hi. apply in_app_iff in Hi. destruct Hi as [Hi|Hi].
         -- apply Hd in Hi. destruct Hi as [ov [Hi Ho]]. exists ov. split; [apply in_snoc; left; assumption|].
            destruct ov as [w|]; [|exact I]. intros Hgw. apply Ho. eapply good_trans; [exact Hgw|exact Hvb].
         -- apply Hm in Hi. destruct Hi as [w [Hi He]]. exists (Some w). split; [apply in_snoc; left; assumption|].
-           intros Hgw. apply Hnb. eapply good_trans; [|exact Hgw]. apply Qeq_good. symmetry; assumption.
+           intros Hgw. apply Hnb. eapply good_trans; [|exact Hgw]. apply eqv_good. apply eqv_sym; assumption.
       * intros [ov [Hi Ho]]. apply in_app_iff. apply in_snoc in Hi. destruct Hi as [Hi|Hi].
         -- destruct ov as [w|].
-           ++ destruct (good_total cmp (key w) (key (s_value s))) as [G|G].
-              ** right. apply Hm. exists w. split; [assumption|]. apply good_eq with cmp; [assumption|apply (Hg _ _ Hi)].
-              ** destruct (Qeq_dec (key w) (key (s_value s))) as [E|E].
+           ++ destruct (good_total w (s_value s)) as [G|G].
+              ** right. apply Hm. exists w. split; [assumption|]. apply good_eq; [assumption|apply (Hg _ _ Hi)].
+              ** destruct (eqv_dec w (s_value s)) as [E|E].
                  --- right. apply Hm. exists w. split; assumption.
                  --- left. apply Hd. exists (Some w). split; [assumption|].
-                     intros G'. apply E. apply good_eq with cmp; assumption.
+                     intros G'. apply E. apply good_eq; assumption.
            ++ left. apply Hd. exists None. split; [assumption|exact I].
         -- inversion Hi; subst. exfalso. apply Ho. apply good_refl.
     + rewrite (HP_eq _ _ Pb Pv). simpl.
-      pose proof (proj1 (beats_false_good _ _ _) Eb) as Hgb.
-      destruct (Qeq_bool (key v) (key (s_value s))) eqn:Eq.
+      pose proof (proj1 (beats_false_good _ _) Eb) as Hgb.
+      destruct (eqvb (s_value s) v) eqn:Eq.
       * (* equal to the extremum: one more match *)
-        apply Qeq_bool_iff in Eq.
+        apply eqvb_iff in Eq. apply eqv_sym in Eq.
         eexists. split; [reflexivity|].
         right. exists (s_value s). simpl. repeat split; try assumption.
         -- destruct Hin as [c0 Hc0]. exists c0. apply in_snoc. left; assumption.
@@ -278,10 +294,10 @@ Proof.
         -- intros Hi. apply Hd in Hi. destruct Hi as [ov [Hi Ho]]. exists ov. split; [apply in_snoc; left; assumption|assumption].
         -- intros [ov [Hi Ho]]. apply in_snoc in Hi. destruct Hi as [Hi|Hi].
            ++ apply Hd. exists ov. split; assumption.
-           ++ inversion Hi; subst. exfalso. apply Ho. apply Qeq_good. assumption.
+           ++ inversion Hi; subst. exfalso. apply Ho. apply eqv_good. assumption.
       * (* worse: discarded *)
-        assert (Hne : ~ (key v == key (s_value s))%Q).
-        { intros E. apply Qeq_bool_iff in E. congruence. }
+        assert (Hne : ~ eqv v (s_value s)).
+        { intros E. apply eqv_sym in E. apply eqvb_iff in E. congruence. }
         eexists. split; [reflexivity|]. unfold discard.
         right. exists (s_value s). simpl. repeat split; try assumption.
         -- destruct Hin as [c0 Hc0]. exists c0. apply in_snoc. left; assumption.
@@ -294,7 +310,7 @@ Proof.
         -- intros Hi. apply in_snoc in Hi. destruct Hi as [Hi|Hi].
            ++ apply Hd in Hi. destruct Hi as [ov [Hi Ho]]. exists ov. split; [apply in_snoc; left; assumption|assumption].
            ++ subst. exists (Some v). split; [apply in_snoc; right; reflexivity|].
-              intros G. apply Hne. apply good_eq with cmp; assumption.
+              intros G. apply Hne. apply good_eq; assumption.
         -- intros [ov [Hi Ho]]. apply in_snoc. apply in_snoc in Hi. destruct Hi as [Hi|Hi].
            ++ left. apply Hd. exists ov. split; assumption.
            ++ inversion Hi; subst. right; reflexivity.
@@ -328,7 +344,7 @@ Proof. intros l HP. apply (fold_gstep_inv l [] scan0 Inv_nil HP). Qed.
 
 (* what the invariant says at the end, in the words of the spec *)
 Definition is_best (v : pyval) (ms : list mem) : Prop :=
-  forall w c, In (Some w, c) ms -> good cmp (key v) (key w).
+  forall w c, In (Some w, c) ms -> good v w.
 
 Lemma Inv_match : forall ms s, Inv ms s ->
   forall c, In c (s_match s) <-> exists v, In (Some v, c) ms /\ is_best v ms.
@@ -337,9 +353,9 @@ Proof.
   - rewrite Hm. split; [intros []|]. intros [v [Hi _]]. exfalso. apply (Hno _ _ Hi).
   - rewrite Hm. split.
     + intros [w [Hi He]]. exists w. split; [assumption|]. intros u cu Hu.
-      eapply good_trans; [apply Qeq_good; exact He|apply (Hg _ _ Hu)].
+      eapply good_trans; [apply eqv_good; exact He|apply (Hg _ _ Hu)].
     + intros [v [Hi Hb]]. exists v. split; [assumption|].
-      destruct Hin as [c0 Hc0]. apply good_eq with cmp; [apply (Hb _ _ Hc0)|apply (Hg _ _ Hi)].
+      destruct Hin as [c0 Hc0]. apply good_eq; [apply (Hb _ _ Hc0)|apply (Hg _ _ Hi)].
 Qed.
 
 Lemma Inv_discard : forall ms s, Inv ms s ->
@@ -432,18 +448,103 @@ Proof.
   destruct (scan_total _ HP) as [s [E I]]. rewrite E. simpl. exists s. split; [reflexivity|assumption].
 Qed.
 
+(* a hash of hashes with the attribute named *)
+Definition hoh_member (attr : string) (x : kctx) (kv : node * node) : mem :=
+  (attr_value attr (snd kv), child_coords x (key_ref (fst kv))).
+
+Lemma hoh_step_gstep : forall attr data_kvs x s kv,
+  is_map (snd kv) = true ->
+  hoh_step lit re_search node_str cmp attr data_kvs x s kv = gstep s (hoh_member attr x kv).
+Proof.
+  intros attr data_kvs x s [k v] Hm. unfold hoh_step, gstep, hoh_member, attr_value. simpl in *.
+  destruct v as [?|i kvs|?|?]; try discriminate.
+  destruct (map_get kvs attr) as [vn|]; [|reflexivity].
+  destruct (is_none_node vn); reflexivity.
+Qed.
+
+Lemma foldM_map_ext_in : forall A B (f : scan -> A -> outcome scan) (g : scan -> B -> outcome scan) (h : A -> B) l,
+  (forall s a, In a l -> f s a = g s (h a)) ->
+  forall s, foldM f l s = foldM g (map h l) s.
+Proof.
+  intros A B f g h l. induction l as [|a r IH]; intros H s; simpl; [reflexivity|].
+  rewrite H by (left; reflexivity). destruct (g s (h a)); simpl; auto.
+  apply IH. intros s' a' Hi. apply H. right; assumption.
+Qed.
+
+Lemma extremum_hoh : forall invert attr i kvs x,
+  forallb (fun kv => is_map (snd kv)) kvs = true ->
+  all_P (map (hoh_member attr x) kvs) ->
+  exists s,
+    extremum lit re_search node_str cmp invert [attr] (NMap i kvs) x =
+      Ok (if invert then s_discard s else s_match s) /\
+    Inv (map (hoh_member attr x) kvs) s.
+Proof.
+  intros invert attr i kvs x Hhoh HP. unfold extremum. simpl List.length. simpl Nat.ltb.
+  cbv iota. simpl node_is_aoh. cbv iota.
+  rewrite (foldM_map_ext_in _ _ (hoh_step lit re_search node_str cmp attr kvs x) gstep (hoh_member attr x) kvs).
+  - destruct (scan_total _ HP) as [s [E I]]. rewrite E. simpl. exists s. split; [reflexivity|assumption].
+  - intros s kv Hi. apply hoh_step_gstep. rewrite forallb_forall in Hhoh. apply (Hhoh _ Hi).
+Qed.
+
 End Scan.
 
-(* ---------- same-kind numeric collections satisfy the hypotheses of the scan ---------- *)
+(* ---------- same-kind collections satisfy the hypotheses of the scan ---------- *)
 Definition num_key (v : pyval) : Q := match num_of v with Some q => q | None => 0 end.
 
-(* all ints (ints = true) or all floats, each its own typed reading *)
+(* the kinds of the property's "same-kind scalars" *)
+Inductive skind := SKInt | SKFloat | SKText.
+
+(* a member of kind k that is its own typed reading (true of EVERY int:
+   [int_same_kind]; for a float it says that its repr is not a spelling of
+   true/false, for text that the text is no Python literal and no boolean
+   spelling) *)
+Definition same_kind (k : skind) (v : pyval) : Prop :=
+  match k with
+  | SKInt => exists z, v = PInt z
+  | SKFloat => exists q r, v = PFloat q r
+  | SKText => exists t, v = PStr t
+  end /\ typed_value lit v = Ok v.
+
+(* all ints (ints = true) or all floats *)
 Definition same_kind_num (ints : bool) (v : pyval) : Prop :=
   (if ints then exists z, v = PInt z else exists q r, v = PFloat q r) /\
   typed_value lit v = Ok v.
 
-Lemma same_kind_not_none : forall ints v, same_kind_num ints v -> is_pnone v = false.
-Proof. intros [] v [H _]; [destruct H as [z ->]|destruct H as [q [r ->]]]; reflexivity. Qed.
+Lemma same_kind_num_kind : forall ints v,
+  same_kind_num ints v -> same_kind (if ints then SKInt else SKFloat) v.
+Proof. intros [] v H; exact H. Qed.
+
+Lemma int_same_kind : forall z, same_kind SKInt (PInt z).
+Proof. intros z. split; [exists z; reflexivity|apply typed_value_int]. Qed.
+
+(* the order of a kind: numeric for numbers, lexicographic for text *)
+Definition kind_le (k : skind) : pyval -> pyval -> Prop :=
+  match k with SKText => text_le | _ => num_le num_key end.
+Definition kind_leb (k : skind) (a b : pyval) : bool :=
+  match k with
+  | SKText => str_leb (py_str a) (py_str b)
+  | _ => Qle_bool (num_key a) (num_key b)
+  end.
+
+Lemma kind_leb_le : forall k a b, kind_leb k a b = true <-> kind_le k a b.
+Proof. intros [] a b; simpl; unfold num_le, text_le; try apply Qle_bool_iff; reflexivity. Qed.
+Lemma kind_le_refl : forall k a, kind_le k a a.
+Proof. intros [] a; simpl; unfold num_le, text_le; try apply Qle_refl. apply str_leb_refl. Qed.
+Lemma kind_le_trans : forall k a b c, kind_le k a b -> kind_le k b c -> kind_le k a c.
+Proof.
+  intros [] a b c; simpl; unfold num_le, text_le; try apply Qle_trans. apply str_leb_trans.
+Qed.
+Lemma kind_le_total : forall k a b, kind_le k a b \/ kind_le k b a.
+Proof.
+  assert (HQ : forall x y : Q, (x <= y)%Q \/ (y <= x)%Q).
+  { intros x y. destruct (Qlt_le_dec x y) as [H|H]; [left; apply Qlt_le_weak; assumption|right; assumption]. }
+  intros [] a b; simpl; unfold num_le, text_le; try apply HQ. apply str_leb_total.
+Qed.
+
+Lemma same_kind_not_none : forall k v, same_kind k v -> is_pnone v = false.
+Proof.
+  intros [] v [H _]; [destruct H as [z ->]|destruct H as [q [r ->]]|destruct H as [t ->]]; reflexivity.
+Qed.
 
 Lemma sm_unfold_typed : forall m a b,
   typed_value lit a = Ok a -> typed_value lit b = Ok b ->
@@ -463,51 +564,117 @@ Proof.
   rewrite Hb. cbn [bind]. rewrite Ha. cbn [bind]. destruct m; reflexivity.
 Qed.
 
-Lemma same_kind_cmp : forall ints cmp a b,
+(* Searches.search_matches(GREATER_THAN / LESS_THAN, running value a, new
+   value b) on two members of one kind: "b beats a" in the kind's order *)
+Lemma same_kind_cmp : forall k cmp a b,
   cmp = MGt \/ cmp = MLt ->
-  same_kind_num ints a -> same_kind_num ints b ->
-  sm cmp a b = Ok (beats cmp (num_key a) (num_key b)).
+  same_kind k a -> same_kind k b ->
+  sm cmp a b = Ok (negb (goodb cmp (kind_leb k) a b)).
 Proof.
-  intros ints cmp a b Hc [Ka Ta] [Kb Tb]. rewrite (sm_unfold_typed cmp a b Ta Tb).
-  destruct ints.
+  intros k cmp a b Hc [Ka Ta] [Kb Tb]. rewrite (sm_unfold_typed cmp a b Ta Tb).
+  destruct k.
   - destruct Ka as [za ->]. destruct Kb as [zb ->].
     destruct Hc as [->| ->]; reflexivity.
   - destruct Ka as [qa [ra ->]]. destruct Kb as [qb [rb ->]].
     destruct Hc as [->| ->]; reflexivity.
+  - destruct Ka as [ta ->]. destruct Kb as [tb ->].
+    destruct Hc as [->| ->]; unfold goodb, kind_leb, str_leb; simpl; rewrite negb_involutive; reflexivity.
 Qed.
 
-Lemma same_kind_eq : forall ints a b,
-  same_kind_num ints a -> same_kind_num ints b ->
-  sm MEquals a b = Ok (Qeq_bool (num_key b) (num_key a)).
+(* ... and EQUALS: numeric equality for numbers, the same text for text *)
+Lemma same_kind_eq : forall k a b,
+  same_kind k a -> same_kind k b ->
+  sm MEquals a b = Ok (eqvb (kind_leb k) a b).
 Proof.
-  intros ints a b [Ka Ta] [Kb Tb]. rewrite (sm_unfold_typed MEquals a b Ta Tb).
-  destruct ints.
-  - destruct Ka as [za ->]. destruct Kb as [zb ->]. reflexivity.
-  - destruct Ka as [qa [ra ->]]. destruct Kb as [qb [rb ->]]. reflexivity.
+  intros k a b [Ka Ta] [Kb Tb]. rewrite (sm_unfold_typed MEquals a b Ta Tb).
+  unfold eqvb. destruct k.
+  - destruct Ka as [za ->]. destruct Kb as [zb ->]. simpl.
+    unfold py_eq. simpl. rewrite Qeq_bool_leb, andb_comm. reflexivity.
+  - destruct Ka as [qa [ra ->]]. destruct Kb as [qb [rb ->]]. simpl.
+    unfold py_eq. simpl. rewrite Qeq_bool_leb, andb_comm. reflexivity.
+  - destruct Ka as [ta ->]. destruct Kb as [tb ->]. simpl.
+    rewrite str_eqb_leb, andb_comm. reflexivity.
 Qed.
 
 (* ---------- the headline statements ---------- *)
-Definition selected (cmp : smethod) (invert : bool) (ms : list (option pyval * coords)) (c : coords) : Prop :=
+(* what max / min yield, plain and inverted, for an order [le] *)
+Definition selected_by (le : pyval -> pyval -> Prop) (cmp : smethod) (invert : bool)
+           (ms : list (option pyval * coords)) (c : coords) : Prop :=
   match cmp, invert with
-  | MLt, false => min_members coords num_key ms c
-  | MLt, true => non_min_members coords num_key ms c
-  | _, false => max_members coords num_key ms c
-  | _, true => non_max_members coords num_key ms c
+  | MLt, false => min_members_by coords le ms c
+  | MLt, true => non_min_members_by coords le ms c
+  | _, false => max_members_by coords le ms c
+  | _, true => non_max_members_by coords le ms c
   end.
+Definition selected := selected_by (num_le num_key).
 
-Lemma selected_of_Inv : forall cmp ints (invert : bool) ms s,
+Lemma selected_of_Inv : forall cmp k (invert : bool) ms s,
   cmp = MGt \/ cmp = MLt ->
-  Inv cmp num_key (same_kind_num ints) ms s ->
-  forall c, In c (if invert then s_discard s else s_match s) <-> selected cmp invert ms c.
+  Inv cmp (kind_le k) (same_kind k) ms s ->
+  forall c, In c (if invert then s_discard s else s_match s) <-> selected_by (kind_le k) cmp invert ms c.
 Proof.
-  intros cmp ints invert ms s Hc HI c.
+  intros cmp k invert ms s Hc HI c.
   destruct invert.
-  - rewrite (Inv_discard cmp num_key (same_kind_num ints) ms s HI c).
+  - rewrite (Inv_discard cmp (kind_le k) (kind_leb k) (kind_le_trans k) (same_kind k)
+               (fun a b Pa Pb => same_kind_cmp k cmp a b Hc Pa Pb) ms s HI c).
     destruct Hc as [->| ->]; reflexivity.
-  - rewrite (Inv_match cmp num_key (same_kind_num ints) ms s HI c).
+  - rewrite (Inv_match cmp (kind_le k) (kind_leb k) (kind_le_trans k) (same_kind k)
+               (fun a b Pa Pb => same_kind_cmp k cmp a b Hc Pa Pb) ms s HI c).
     destruct Hc as [->| ->]; reflexivity.
 Qed.
 
+Section Kind.
+Variable cmp : smethod.
+Variable k : skind.
+Hypothesis Hc : cmp = MGt \/ cmp = MLt.
+
+Lemma extremum_list_kind : forall invert i els x,
+  node_is_aoh true (NSeq i els) = false ->
+  (forall v c, In (Some v, c) (map (list_member x) (enumerate els)) -> same_kind k v) ->
+  exists res,
+    extremum lit re_search node_str cmp invert [] (NSeq i els) x = Ok res /\
+    forall c, In c res <-> selected_by (kind_le k) cmp invert (map (list_member x) (enumerate els)) c.
+Proof.
+  intros invert i els x Haoh HP.
+  destruct (extremum_list cmp (kind_le k) (kind_leb k) (kind_leb_le k) (kind_le_refl k) (kind_le_trans k)
+              (kind_le_total k) (same_kind k) (same_kind_not_none k)
+              (fun a b Pa Pb => same_kind_cmp k cmp a b Hc Pa Pb) (same_kind_eq k)
+              invert i els x Haoh HP) as [s [E I]].
+  eexists. split; [exact E|]. apply (selected_of_Inv cmp k invert _ s Hc I).
+Qed.
+
+Lemma extremum_aoh_kind : forall invert attr i els x,
+  node_is_aoh true (NSeq i els) = true ->
+  (forall v c, In (Some v, c) (map (aoh_member attr x) (enumerate els)) -> same_kind k v) ->
+  exists res,
+    extremum lit re_search node_str cmp invert [attr] (NSeq i els) x = Ok res /\
+    forall c, In c res <-> selected_by (kind_le k) cmp invert (map (aoh_member attr x) (enumerate els)) c.
+Proof.
+  intros invert attr i els x Haoh HP.
+  destruct (extremum_aoh cmp (kind_le k) (kind_leb k) (kind_leb_le k) (kind_le_refl k) (kind_le_trans k)
+              (kind_le_total k) (same_kind k) (same_kind_not_none k)
+              (fun a b Pa Pb => same_kind_cmp k cmp a b Hc Pa Pb) (same_kind_eq k)
+              invert attr i els x Haoh HP) as [s [E I]].
+  eexists. split; [exact E|]. apply (selected_of_Inv cmp k invert _ s Hc I).
+Qed.
+
+Lemma extremum_hoh_kind : forall invert attr i kvs x,
+  forallb (fun kv => is_map (snd kv)) kvs = true ->
+  (forall v c, In (Some v, c) (map (hoh_member attr x) kvs) -> same_kind k v) ->
+  exists res,
+    extremum lit re_search node_str cmp invert [attr] (NMap i kvs) x = Ok res /\
+    forall c, In c res <-> selected_by (kind_le k) cmp invert (map (hoh_member attr x) kvs) c.
+Proof.
+  intros invert attr i kvs x Hh HP.
+  destruct (extremum_hoh cmp (kind_le k) (kind_leb k) (kind_leb_le k) (kind_le_refl k) (kind_le_trans k)
+              (kind_le_total k) (same_kind k) (same_kind_not_none k)
+              (fun a b Pa Pb => same_kind_cmp k cmp a b Hc Pa Pb) (same_kind_eq k)
+              invert attr i kvs x Hh HP) as [s [E I]].
+  eexists. split; [exact E|]. apply (selected_of_Inv cmp k invert _ s Hc I).
+Qed.
+End Kind.
+
+(* the numeric statements as first written (ints = true: all ints; false: all floats) *)
 Lemma extremum_list_same_kind : forall cmp ints invert i els x,
   cmp = MGt \/ cmp = MLt ->
   node_is_aoh true (NSeq i els) = false ->
@@ -517,10 +684,9 @@ Lemma extremum_list_same_kind : forall cmp ints invert i els x,
     forall c, In c res <-> selected cmp invert (map (list_member x) (enumerate els)) c.
 Proof.
   intros cmp ints invert i els x Hc Haoh HP.
-  destruct (extremum_list cmp num_key (same_kind_num ints) (same_kind_not_none ints)
-              (fun a b Pa Pb => same_kind_cmp ints cmp a b Hc Pa Pb) (same_kind_eq ints)
-              invert i els x Haoh HP) as [s [E I]].
-  eexists. split; [exact E|]. apply (selected_of_Inv cmp ints invert _ s Hc I).
+  destruct ints.
+  - apply (extremum_list_kind cmp SKInt Hc invert i els x Haoh HP).
+  - apply (extremum_list_kind cmp SKFloat Hc invert i els x Haoh HP).
 Qed.
 
 Lemma extremum_aoh_same_kind : forall cmp ints invert attr i els x,
@@ -532,10 +698,23 @@ Lemma extremum_aoh_same_kind : forall cmp ints invert attr i els x,
     forall c, In c res <-> selected cmp invert (map (aoh_member attr x) (enumerate els)) c.
 Proof.
   intros cmp ints invert attr i els x Hc Haoh HP.
-  destruct (extremum_aoh cmp num_key (same_kind_num ints) (same_kind_not_none ints)
-              (fun a b Pa Pb => same_kind_cmp ints cmp a b Hc Pa Pb) (same_kind_eq ints)
-              invert attr i els x Haoh HP) as [s [E I]].
-  eexists. split; [exact E|]. apply (selected_of_Inv cmp ints invert _ s Hc I).
+  destruct ints.
+  - apply (extremum_aoh_kind cmp SKInt Hc invert attr i els x Haoh HP).
+  - apply (extremum_aoh_kind cmp SKFloat Hc invert attr i els x Haoh HP).
+Qed.
+
+(* a list of ints (nulls allowed): no hypothesis about typed readings is left *)
+Lemma extremum_list_ints : forall cmp invert i els x,
+  cmp = MGt \/ cmp = MLt ->
+  node_is_aoh true (NSeq i els) = false ->
+  (forall v c, In (Some v, c) (map (list_member x) (enumerate els)) -> exists z, v = PInt z) ->
+  exists res,
+    extremum lit re_search node_str cmp invert [] (NSeq i els) x = Ok res /\
+    forall c, In c res <-> selected cmp invert (map (list_member x) (enumerate els)) c.
+Proof.
+  intros cmp invert i els x Hc Haoh HP.
+  apply (extremum_list_kind cmp SKInt Hc invert i els x Haoh).
+  intros v c Hi. destruct (HP v c Hi) as [z ->]. apply int_same_kind.
 Qed.
 
 (* ---------- parent ---------- *)
